@@ -15,8 +15,8 @@ type Spec_ElectreIIIPreferenceFunc struct {
 }
 
 type Spec_ElectreIIIInputParams struct {
-	Criteria        ElectreCriteria                `json:"criteria"`
-	DistillationFun utils.LinearFunctionParameters `json:"distillationFun,omitempty"`
+	Criteria        ElectreCriteria                `json:"electreCriteria"`
+	DistillationFun utils.LinearFunctionParameters `json:"electreDistillation,omitempty"`
 }
 
 type Spec_ElectreResult struct {
